@@ -1730,4 +1730,93 @@ theorem decoded_reencodes (ms : ML) (bs : List UInt8) (v : VL) (ws : List Warnin
   · simp at hd
   · simp at hd
 
+/-! ### an object decoder consumes `int_size` integers -/
+
+theorem readIntO_len {inp : List Int} {k : Int → Option Val} {x : Val} {r : List Int}
+    (h : readIntO inp k = .ok x r) : inp.length = 1 + r.length := by
+  unfold readIntO at h
+  split at h
+  · simp at h
+  · split at h
+    · simp at h; simp [← h.2]; omega
+    · simp at h
+
+theorem orep_len (f : List Int → ORes Val) (c : Nat)
+    (h : ∀ inp v r, f inp = .ok v r → inp.length = c + r.length) :
+    ∀ (n : Nat) (inp : List Int) (vs : VL) (r : List Int), orep f n inp = .ok vs r → inp.length = n * c + r.length := by
+  intro n
+  induction n with
+  | zero => intro inp vs r he; simp [orep] at he; simp [he.2]
+  | succ n ih =>
+    intro inp vs r he
+    simp only [orep] at he
+    split at he
+    · simp at he
+    · rename_i v r1 h1
+      split at he
+      · simp at he
+      · rename_i vs' r2 h2
+        simp at he
+        have a := h _ _ _ h1
+        have b := ih _ _ _ h2
+        rw [← he.2, Nat.succ_mul]
+        omega
+
+theorem decO_len : ∀ (t : MT) (inp : List Int) (v : Val) (r : List Int), wfO t = true →
+    decO t inp = .ok v r → inp.length = intSizeM t + r.length
+  | .int32 _ _, inp, v, r, _, h => by simp only [decO] at h; simpa [intSizeM] using readIntO_len h
+  | .boolean, inp, v, r, _, h => by simp only [decO] at h; simpa [intSizeM] using readIntO_len h
+  | .enum _ _ _, inp, v, r, _, h => by simp only [decO] at h; simpa [intSizeM] using readIntO_len h
+  | .flags _ _, inp, v, r, _, h => by simp only [decO] at h; simpa [intSizeM] using readIntO_len h
+  | .tick, inp, v, r, _, h => by simp only [decO] at h; simpa [intSizeM] using readIntO_len h
+  | .twString n, inp, v, r, _, h => by
+    simp only [decO] at h
+    split at h
+    · rename_i vs r' hr
+      simp at h
+      have := orep_len _ 1 (fun inp v r hh => readIntO_len hh) _ _ _ _ hr
+      rw [← h.2]; simpa [intSizeM] using this
+    · simp at h
+  | .array n t, inp, v, r, hw, h => by
+    simp only [wfO] at hw
+    simp only [decO] at h
+    split at h
+    · rename_i vs r' hr
+      simp at h
+      have := orep_len _ (intSizeM t) (fun inp v r hh => decO_len t inp v r hw hh) _ _ _ _ hr
+      rw [← h.2]; simpa [intSizeM] using this
+    · simp at h
+  | .object _, _, _, _, hw, _ => by simp [wfO] at hw
+  | .tuneParam, _, _, _, hw, _ => by simp [wfO] at hw
+  | .string _, _, _, _, hw, _ => by simp [wfO] at hw
+  | .int32String, _, _, _, hw, _ => by simp [wfO] at hw
+  | .data, _, _, _, hw, _ => by simp [wfO] at hw
+  | .rest, _, _, _, hw, _ => by simp [wfO] at hw
+  | .raw _, _, _, _, hw, _ => by simp [wfO] at hw
+  | .beUint16, _, _, _, hw, _ => by simp [wfO] at hw
+  | .uint8, _, _, _, hw, _ => by simp [wfO] at hw
+  | .packedAddresses, _, _, _, hw, _ => by simp [wfO] at hw
+  | .serverinfoClient, _, _, _, hw, _ => by simp [wfO] at hw
+  | .optional _, _, _, _, hw, _ => by simp [wfO] at hw
+
+theorem decOs_len : ∀ (ms : ML) (inp : List Int) (vs : VL) (r : List Int), wfOs ms = true →
+    decOs ms inp = .ok vs r → inp.length = intSize ms + r.length
+  | .nil, inp, vs, r, _, h => by simp [decOs] at h; simp [intSize, h.2]
+  | .cons t ms, inp, vs, r, hw, h => by
+    simp only [wfOs, Bool.and_eq_true] at hw
+    simp only [decOs] at h
+    split at h
+    · simp at h
+    · rename_i v r1 h1
+      split at h
+      · simp at h
+      · rename_i vs' r2 h2
+        simp at h
+        have a := decO_len t _ _ _ hw.1 h1
+        have b := decOs_len ms _ _ _ hw.2 h2
+        rw [← h.2]
+        simp only [intSize]
+        omega
+
+
 end Tw.Gamenet
